@@ -211,6 +211,7 @@ MATH = {
     'root': '$ √x $', 'root_hash': '$ √#x $', 'root_paren': '$ √(a + b) $',
     'delim': '$ (a + b) $', 'delim_sp': '$ ( a ) $', 'delim_nl': '$ (\n a \n) $', 'delim_empty': '$ () $', 'delim_bracket': '$ [a, b] $', 'delim_abs': '$ |x| $',
     'call': '$ sin(x) $', 'call_sp': '$ sin( x ) $', 'call_2d': '$ mat(1, 2; 3, 4) $', 'call_named': '$ vec(delim: "[", 1, 2) $', 'call_empty': '$ f() $', 'call_blank': '$ vec( ) $',
+    'call_field_2d': '$ ab.cd(1, 2; 3, 4) $', 'call_field_trailing_comma': '$ std.mat(1, 2,) $', 'call_nested_2d': '$ mat(vec(1; 2), 3; 4) $', 'call_field_semicolon_end': '$ ab.cd(1; 2;) $',
     'call_nl': '$ mat(\n 1, 2;\n 3, 4\n) $', 'call_hash_arg': '$ f(#a, #b) $', 'call_hash_semi': '$ mat(#a; #b) $', 'call_content': '$ f(x)[y] $',
     'align': '$ a &= b \\\n  &= c $', 'linebreak': '$ a \\ b $', 'linebreak_end': '$ a \\\n$', 'primes': "$ f'' $", 'str': '$ "a b" $', 'shorthand': '$ a -> b != c $',
     'block_eq': '$\n  a + b\n$', 'inline_eq': 'text $a+b$ text', 'eq_cmt_bc': '$ a /* c */ + b $', 'eq_cmt_lc': '$ a // c\n + b $', 'eq_cmt_lc_end': '$ a // c\n$',
